@@ -23,4 +23,4 @@ for f in out["fixed"]:
         seen.add(k); fx.append(f)
 out["fixed"] = fx
 json.dump(out, open(os.path.join(here, "known_findings.json"), "w"), indent=1)
-print(len(out["findings"]), "open,", len(out["fixed"]), "fixed")
+print(sum(1 for f in out["findings"] if f.get("status", "open") == "open"), "open,", len(out["fixed"]), "fixed")
